@@ -2,6 +2,10 @@
 (* Loop C for C06: the callbacks gengo really made, per run, against ExpectedCalls. *)
 EXTENDS Dispatch, IOUtils
 
+RECURSIVE ExpectedCalls(_, _, _, _)
+ExpectedCalls(gs, i, globals, pkgtags) ==
+    IF i > Len(gs) THEN <<>> ELSE ExpectedFor(gs[i], globals, pkgtags) \o ExpectedCalls(gs, i + 1, globals, pkgtags)
+
 Trace == ndJsonDeserialize(IOEnv.TRACE)
 VARIABLES l, bad
 
